@@ -118,8 +118,12 @@ type RTCPSink struct {
 	failIf func(SentRTCP) error
 	// Delay makes every write take this long (a slow transport), so that "still inside a write" is observable.
 	Delay    time.Duration
+	fast     atomic.Bool // Delay suspended (SetFast)
 	inFlight atomic.Int32
 }
+
+// SetFast suspends (true) or restores (false) the Delay of a slow transport.
+func (s *RTCPSink) SetFast(on bool) { s.fast.Store(on) }
 
 // InFlight returns the number of Write calls that have started but not yet returned.
 func (s *RTCPSink) InFlight() int { return int(s.inFlight.Load()) }
@@ -135,7 +139,7 @@ func (s *RTCPSink) SetFailIf(f func(SentRTCP) error) {
 func (s *RTCPSink) Write(pkts []rtcp.Packet, _ interceptor.Attributes) (int, error) {
 	s.inFlight.Add(1)
 	defer s.inFlight.Add(-1)
-	if s.Delay > 0 {
+	if s.Delay > 0 && !s.fast.Load() {
 		defer time.Sleep(s.Delay)
 	}
 	rec := SentRTCP{Pkts: append([]rtcp.Packet(nil), pkts...), At: time.Now()}
